@@ -101,7 +101,7 @@ package drpcmanager
 //@   site (*Signal).Err assumeafter [nonnil] ret != nil
 //@   requires m.wr != nil
 //@   modifies *
-//@   ensures [C02.id] result1 == nil ==> result0 != nil && result0.id.Stream == sid
+//@   ensures [C02.id] result1 == nil ==> result0 != nil && result0.id.Stream == sid && result0.wr == m.wr
 
 // NewServerStream: metadata is attached only when it arrived, in this very call, on the stream id of
 // the invoke that follows it; the stream is created with the invoke's id.
@@ -114,6 +114,10 @@ package drpcmanager
 //@   loop 1 invariant [m] m == m0 && m.wr != nil && (!gotMeta ==> metaID == 0 && meta == nil)
 //@   site AddPairs assert [C11.scope] (gotMeta || meta == nil) && arg1 == meta && eventCount("call:AddPairs") == 0
 //@   site (*Manager).newStream assert [C02.invoke-id] eventCount("call:(*Manager).newStream") == 0
+//@   assumes "ctx.Err() is non-nil once ctx.Done() is closed (context package contract); the manager's term signal is only ever set with a non-nil error ([nonnil-set] in terminate)"
+//@   site Err#1 assumeafter [ctx-err] ret != nil
+//@   site (*Signal).Err assumeafter [nonnil] ret != nil
+//@   ensures [stream] err == nil ==> stream != nil && stream.wr == m.wr
 
 //@ func (*Manager).manageStreams
 //@   props C12
@@ -149,3 +153,15 @@ package drpcmanager
 //@   check [C04.soft-busy]     eventCount("select:2") == 1 && old(m.opts.SoftCancel) && (busy || scerr != nil) ==> eventCount("call:(*Manager).terminate") == 1
 //@   check [C04.hard-unfinished] eventCount("select:2") == 1 && !old(m.opts.SoftCancel) && !cret ==> eventCount("call:(*Manager).terminate") == 1
 //@   check [C04.hard-no-packet] !old(m.opts.SoftCancel) ==> eventCount("call:(*Stream).SendCancel") == 0
+
+// NewWithOptions starts exactly the two goroutines (reader and stream manager) that Close waits for.
+//@ func NewWithOptions
+//@   props C12 C05
+//@   requires tr != nil && opts.WriterBufferSize >= 0 && opts.WriterBufferSize <= 1073741824
+//@   modifies *
+//@   ensures [man] result != nil && result.wr != nil && result.wr.w == tr && result.tr == tr
+//@   check [C12.two-goroutines] eventCount("go:") == 2 && eventCount("go:(*Manager).manageReader") == 1 && eventCount("go:(*Manager).manageStreams") == 1
+
+// Set once by NewWithOptions, never assigned again (checked by a scan of every function of the package).
+//@ immutable Manager.tr, Manager.wr, Manager.rd
+//@   props C12 C05 C02 C11
